@@ -251,6 +251,21 @@ def run_c04(tier, replay=None):
                 put(model, where, [inst])
             reqs.append({"id": len(meta), "json": json.dumps(model)})
             meta.append(("random", n))
+        # (4b) every number of every struct at the 32-bit neighbours of the values a skip rule or a default could single out
+        # (a predicate written "close to 1" or "close to 0" omits a value that is not the default)
+        for near in (0.99999994, 1.0000001, 1e-45, -1e-45, 1.1754944e-38):
+            model = {"meta": copy.deepcopy(base["Meta"])}
+            for k, v in list(model["meta"].items()):
+                if isinstance(v, float):
+                    model["meta"][k] = near
+            for struct, where in WHERE.items():
+                inst = copy.deepcopy(base[struct])
+                for k, v in list(inst.items()):
+                    if isinstance(v, float):
+                        inst[k] = near
+                put(model, where, [inst])
+            reqs.append({"id": len(meta), "json": json.dumps(model)})
+            meta.append(("random", "near %r" % near))
         write_ndjson(reqf, reqs)
         vh(["jsonfmt", "--reqs", reqf, "--out", trace + ".raw"], timeout=3600)
         events = []
